@@ -8,6 +8,18 @@
  * {max_idle_sessions 0,1,2} is run in-process (vxp), followed by context teardown.  A reference model of
  * session lifetime predicts every SERVER_SESSION_NEW / SERVER_SESSION_DEL event; ASan watches for use after
  * free / double free; the balance of the allocation funnel must be zero after coap_free_context().
+ *
+ * Enlarged alphabet ("xops" spaces, smaller depth): the same server additionally has a TCP endpoint and a second
+ * observable resource.  New operations: a raw TCP client t0 (connect + CSM on demand, a fresh source port per
+ * connection) that requests, requests with the handler taking an application reference, observes /o and /o2, closes
+ * its connection (FIN) or sends 7.04 Release; p0 observing a second resource (/o2) and the first one a second time with
+ * another token and query; the application calling coap_session_disconnected() on p0's session.  So sessions are
+ * torn down by DISCONNECT (not only idle timeout / eviction / teardown) while observations, an application reference
+ * or nothing hang off them, and one session holds up to three observations.  The model: a disconnect ends every
+ * observation of that session (and only those); a TCP session whose connection is gone and which nobody holds MAY be
+ * reclaimed at once and MUST be reclaimed once the session timeout has passed; a UDP session survives
+ * coap_session_disconnected() and is reclaimed by the ordinary rules.  At every quiescent point the reclaimability
+ * libcoap itself uses (session->ref == 0) must agree with the model's holder set (application, observation, async).
  */
 #include "netsim.h"
 #include "wire.h"
@@ -41,33 +53,58 @@ __wrap_coap_free_type(coap_memory_tag_t type, void *p) {
   __real_coap_free_type(type, p);
 }
 
-enum { OP_REQ0, OP_REQ1, OP_REQ2, OP_REQ3, OP_REQREF0, OP_REL0, OP_OBS0, OP_CANCEL0, OP_ASYNC1, OP_TRIG, OP_CHG, OP_JUMP_BEFORE, OP_JUMP_PAST, OP_QUIET0, OP_QUIET2, OP_N };
-static const char *op_names[] = {"req(p0)", "req(p1)", "req(p2)", "req(p3)", "req+ref(p0)", "rel(p0)", "obs(p0)", "cancel(p0)", "async(p1)", "trig", "chg", "jump(T-1)", "jump(T+1)", "quiet(p0)", "quiet(p2)"};
-#define NPEER 4
+enum {
+  OP_REQ0, OP_REQ1, OP_REQ2, OP_REQ3, OP_REQREF0, OP_REL0, OP_OBS0, OP_CANCEL0, OP_ASYNC1, OP_TRIG, OP_CHG, OP_JUMP_BEFORE, OP_JUMP_PAST, OP_QUIET0, OP_QUIET2,
+  OP_N_OLD,
+  /* enlarged alphabet */
+  OP_OBS0B = OP_N_OLD, OP_OBS0Q, OP_DISC0, OP_TREQ, OP_TREQREF, OP_TREL, OP_TOBS, OP_TOBSB, OP_TCLOSE, OP_TRELEASE,
+  OP_N
+};
+static const char *op_names[] = {"req(p0)", "req(p1)", "req(p2)", "req(p3)", "req+ref(p0)", "rel(p0)", "obs(p0)", "cancel(p0)", "async(p1)", "trig", "chg", "jump(T-1)", "jump(T+1)", "quiet(p0)", "quiet(p2)",
+                                 "obs2(p0)", "obsq(p0)", "disc(p0)", "treq(t0)", "treq+ref(t0)", "rel(t0)", "tobs(t0)", "tobs2(t0)", "tclose(t0)", "trelease(t0)"};
+/* the "xops" spaces: every new operation plus the old ones that interact with p0 / t0 / reclamation */
+static const int xops[] = {OP_REQ0, OP_REQ1, OP_REQREF0, OP_REL0, OP_OBS0, OP_CANCEL0, OP_CHG, OP_JUMP_PAST,
+                           OP_OBS0B, OP_OBS0Q, OP_DISC0, OP_TREQ, OP_TREQREF, OP_TREL, OP_TOBS, OP_TOBSB, OP_TCLOSE, OP_TRELEASE};
+#define XOP_N ((int)(sizeof xops / sizeof xops[0]))
+#define NPEER 4               /* UDP peers p0..p3 */
+#define MAXT 8                /* TCP connections of t0 per case (one per operation at most) */
+#define NSLOT (NPEER + MAXT)  /* model slots: one per UDP peer, one per TCP connection */
 #define TIMEOUT_S 5
+#define T_HOST 13
+#define OB_O 1  /* /o, token 0x30 (UDP) / 0x60 (TCP) */
+#define OB_O2 2 /* /o2 */
+#define OB_OQ 4 /* /o?v=1 with another token */
 
 struct msess {
   int alive;
   const coap_session_t *ptr;
   uint64_t last;
-  int app_refs, observer, async;
+  int app_refs, obs /* set of OB_* */, async;
   int new_events, del_events;
-  int ep; /* endpoint index */
+  int tcp;      /* slot of a TCP connection */
+  int gone;     /* TCP: the connection has ended (peer closed it / sent Release) */
+  int was_disc; /* some disconnect has hit this session (diagnostics only) */
 };
-static struct msess M[NPEER];
+static struct msess M[NSLOT];
 static coap_context_t *ctx;
-static coap_address_t srv[2], peer[NPEER];
-static const int peer_ep[NPEER] = {0, 0, 0, 1};
-static coap_resource_t *r_plain, *r_obs, *r_async;
-static coap_session_t *held_ref; /* the application's reference on p0's session */
+static coap_address_t srv[3], peer[NSLOT];
+static int peer_ep[NSLOT] = {0, 0, 0, 1};
+static coap_resource_t *r_plain, *r_obs, *r_obs2, *r_async;
+static coap_session_t *held_ref;   /* the application's reference on p0's session */
+static coap_session_t *held_ref_t; /* the application's reference on a session of t0 */
+static int held_t_slot;
 static coap_async_t *pend_async;
-static int take_ref_next;
+static int take_ref_next, take_ref_next_t;
 static int max_idle;
+static int ext; /* enlarged alphabet: TCP endpoint and /o2 exist */
 static uint16_t next_mid;
-static char trace[600];
+static ns_stream_t *tst[MAXT];
+static int ntcp;  /* TCP connections made so far */
+static int tcur;  /* slot of t0's latest connection, -1 = never connected */
+static char trace[900];
 static size_t trace_len;
 static int failed;
-static char opseq[200];
+static char opseq[240];
 
 static void
 tr(const char *fmt, ...) {
@@ -91,33 +128,54 @@ fail(const char *sig, const char *fmt, ...) {
 }
 
 static int
+nslots(void) {
+  return NPEER + ntcp;
+}
+static const char *
+pname(int p) {
+  static char b[4][16];
+  static int k;
+  char *o = b[k++ & 3];
+  if (p < NPEER)
+    snprintf(o, 16, "p%d", p);
+  else
+    snprintf(o, 16, "t0#%d", p - NPEER);
+  return o;
+}
+static int
 peer_of_session(const coap_session_t *s) {
   const coap_address_t *ra = coap_session_get_addr_remote(s);
   const coap_address_t *la = coap_session_get_addr_local(s);
-  for (int p = 0; p < NPEER; p++)
+  int tcp = coap_session_get_proto(s) == COAP_PROTO_TCP;
+  for (int p = 0; p < nslots(); p++)
     if (ns_addr_host(ra) == ns_addr_host(&peer[p]) && ns_addr_port(ra) == ns_addr_port(&peer[p]) &&
-        ns_addr_port(la) == ns_addr_port(&srv[peer_ep[p]]))
+        ns_addr_port(la) == ns_addr_port(&srv[peer_ep[p]]) && tcp == (p >= NPEER))
       return p;
   return -1;
+}
+static int
+held(const struct msess *m) {
+  return m->app_refs || m->obs || m->async;
 }
 static const char *
 holders(const struct msess *m) {
   static char b[60];
-  snprintf(b, sizeof b, "%s%s%s", m->app_refs ? "app-reference," : "", m->observer ? "observation," : "", m->async ? "async-entry," : "");
+  snprintf(b, sizeof b, "%s%s%s", m->app_refs ? "app-reference," : "", m->obs ? "observation," : "", m->async ? "async-entry," : "");
   if (!b[0])
     snprintf(b, sizeof b, "none");
   return b;
 }
 
 /* expected events of the step in progress */
-static int exp_new[NPEER], exp_del[NPEER];
+static int exp_new[NSLOT], exp_del[NSLOT];
+static const char *exp_del_why[NSLOT];
 
 static int
 event_handler(coap_session_t *s, const coap_event_t e) {
   if (e != COAP_EVENT_SERVER_SESSION_NEW && e != COAP_EVENT_SERVER_SESSION_DEL)
     return 0;
   int p = peer_of_session(s);
-  tr(" %s(p%d)", e == COAP_EVENT_SERVER_SESSION_NEW ? "NEW" : "DEL", p);
+  tr(" %s(%s)", e == COAP_EVENT_SERVER_SESSION_NEW ? "NEW" : "DEL", p < 0 ? "?" : pname(p));
   if (p < 0) {
     fail("event:unknown-peer", "session event for an address no peer uses");
     return 0;
@@ -126,24 +184,30 @@ event_handler(coap_session_t *s, const coap_event_t e) {
   if (e == COAP_EVENT_SERVER_SESSION_NEW) {
     m->new_events++;
     if (!exp_new[p]) {
-      fail(m->alive ? "event:second-NEW-for-live-peer" : "event:unexpected-NEW", "SERVER_SESSION_NEW for p%d not predicted (model alive=%d)", p, m->alive);
+      fail(m->alive ? "event:second-NEW-for-live-peer" : "event:unexpected-NEW", "SERVER_SESSION_NEW for %s not predicted (model alive=%d)", pname(p), m->alive);
     }
     exp_new[p] = 0;
     m->ptr = s;
-    for (int q = 0; q < NPEER; q++)
+    for (int q = 0; q < nslots(); q++)
       if (q != p && M[q].alive && M[q].ptr == s)
-        fail("identity:pointer-shared", "new session of p%d has the same object as the live session of p%d", p, q);
+        fail("identity:pointer-shared", "new session of %s has the same object as the live session of %s", pname(p), pname(q));
   } else {
     m->del_events++;
     if (m->ptr != s)
-      fail("event:DEL-of-other-object", "SERVER_SESSION_DEL for p%d names a different session object than NEW did", p);
+      fail("event:DEL-of-other-object", "SERVER_SESSION_DEL for %s names a different session object than NEW did", pname(p));
     if (!exp_del[p]) {
-      char sig[120];
-      if (m->app_refs || m->observer || m->async)
-        snprintf(sig, sizeof sig, "session-freed-while-held-by:%s", holders(m));
-      else
-        snprintf(sig, sizeof sig, "event:unexpected-DEL:%s", ns_now() - m->last < TIMEOUT_S * 1000 ? "before-timeout" : "after-timeout");
-      fail(sig, "SERVER_SESSION_DEL for p%d not predicted (idle for %llu ms, holders: %s)", p, (unsigned long long)(ns_now() - m->last), holders(m));
+      if (m->alive && m->tcp && m->gone && !held(m)) {
+        /* the connection is gone and nobody holds the session: reclaiming it before the timeout is allowed */
+        m->alive = 0;
+        vxp_count(3, 1);
+      } else {
+        char sig[120];
+        if (held(m))
+          snprintf(sig, sizeof sig, "session-freed-while-held-by:%s", holders(m));
+        else
+          snprintf(sig, sizeof sig, "event:unexpected-DEL:%s", ns_now() - m->last < TIMEOUT_S * 1000 ? "before-timeout" : "after-timeout");
+        fail(sig, "SERVER_SESSION_DEL for %s not predicted (idle for %llu ms, holders: %s)", pname(p), (unsigned long long)(ns_now() - m->last), holders(m));
+      }
     }
     exp_del[p] = 0;
   }
@@ -155,9 +219,9 @@ hnd(coap_resource_t *r, coap_session_t *s, const coap_pdu_t *req, const coap_str
   (void)q;
   int p = peer_of_session(s);
   if (p < 0 || !M[p].ptr || M[p].ptr != s)
-    fail("identity:handler-session-differs", "request from p%d handled on a session object other than the one announced by SERVER_SESSION_NEW", p);
+    fail("identity:handler-session-differs", "request from %s handled on a session object other than the one announced by SERVER_SESSION_NEW", p < 0 ? "?" : pname(p));
   if (p >= 0 && M[p].new_events == M[p].del_events)
-    fail("identity:handler-on-deleted-session", "request from p%d handled on a session after its SERVER_SESSION_DEL / before NEW", p);
+    fail("identity:handler-on-deleted-session", "request from %s handled on a session after its SERVER_SESSION_DEL / before NEW", pname(p));
   if (r == r_async) {
     coap_bin_const_t tok = coap_pdu_get_token(req);
     if (!coap_find_async(s, tok)) {
@@ -171,6 +235,13 @@ hnd(coap_resource_t *r, coap_session_t *s, const coap_pdu_t *req, const coap_str
     take_ref_next = 0;
     if (!held_ref)
       held_ref = coap_session_reference(s);
+  }
+  if (take_ref_next_t && p >= NPEER) {
+    take_ref_next_t = 0;
+    if (!held_ref_t) {
+      held_ref_t = coap_session_reference(s);
+      held_t_slot = p;
+    }
   }
   coap_pdu_set_code(resp, COAP_RESPONSE_CODE_CONTENT);
   coap_add_data(resp, 2, (const uint8_t *)"ok");
@@ -206,6 +277,13 @@ pump(void) {
         M[p].last = ns_now();
     ns_deliver(0);
   }
+  /* what the server wrote to t0's connections (CSM, responses, notifications): transmit activity at this instant
+   * (virtual time only moves at the start of an operation, before anything is written) */
+  for (int k = 0; k < ntcp; k++)
+    if (tst[k] && ns_stream_raw_read(tst[k], 0, NULL, (size_t)-1) > 0 && M[NPEER + k].alive) {
+      M[NPEER + k].last = ns_now();
+      vxp_count(4, 1);
+    }
 }
 
 /* model: a datagram from peer p arrives now */
@@ -215,19 +293,20 @@ model_arrival(int p) {
     if (max_idle > 0) {
       int idle = 0, oldest = -1;
       for (int q = 0; q < NPEER; q++)
-        if (M[q].alive && peer_ep[q] == peer_ep[p] && !M[q].app_refs && !M[q].observer && !M[q].async) {
+        if (M[q].alive && peer_ep[q] == peer_ep[p] && !held(&M[q])) {
           idle++;
           if (oldest < 0 || M[q].last < M[oldest].last)
             oldest = q;
         }
       if (idle >= max_idle && oldest >= 0) {
         exp_del[oldest] = 1;
+        exp_del_why[oldest] = "eviction";
         M[oldest].alive = 0;
       }
     }
     exp_new[p] = 1;
     M[p].alive = 1;
-    M[p].app_refs = M[p].observer = M[p].async = 0;
+    M[p].app_refs = M[p].obs = M[p].async = 0;
   }
   M[p].last = ns_now();
 }
@@ -235,38 +314,136 @@ model_arrival(int p) {
 /* model: coap_io_prepare_io() reclaims idle, unreferenced server sessions whose timeout has passed */
 static void
 model_reclaim(void) {
-  for (int p = 0; p < NPEER; p++)
-    if (M[p].alive && !M[p].app_refs && !M[p].observer && !M[p].async && ns_now() - M[p].last >= TIMEOUT_S * 1000) {
+  for (int p = 0; p < nslots(); p++)
+    if (M[p].alive && !held(&M[p]) && ns_now() - M[p].last >= TIMEOUT_S * 1000) {
       exp_del[p] = 1;
+      exp_del_why[p] = "idle-timeout";
       M[p].alive = 0;
     }
 }
 
 static void
-send_req(int p, const char *path, int observe, uint8_t tok) {
-  struct w_buf w;
-  w_begin(&w, 0, 1, next_mid++, &tok, 1);
+build_req(struct w_buf *w, const char *path, int observe, uint8_t tok, const char *query) {
+  w_begin(w, 0, 1, next_mid++, &tok, 1);
   if (observe >= 0)
-    w_opt_uint(&w, 6, (uint32_t)observe);
-  w_opt_add(&w, 11, path, strlen(path));
+    w_opt_uint(w, 6, (uint32_t)observe);
+  w_opt_add(w, 11, path, strlen(path));
+  if (query)
+    w_opt_add(w, 15, query, strlen(query));
+}
+static void
+send_req_q(int p, const char *path, int observe, uint8_t tok, const char *query) {
+  struct w_buf w;
+  build_req(&w, path, observe, tok, query);
   ns_inject(&peer[p], &srv[peer_ep[p]], w.b, w.n);
+}
+static void
+send_req(int p, const char *path, int observe, uint8_t tok) {
+  send_req_q(p, path, observe, tok, NULL);
+}
+
+/* ---- t0: a raw TCP client ---- */
+static int
+t_open(void) {
+  return tcur >= 0 && M[tcur].alive && !M[tcur].gone;
+}
+/* the connection t0 talks on; a new one (fresh source port, CSM first) if it has none */
+static int
+t_ensure(void) {
+  if (t_open())
+    return tcur;
+  if (ntcp >= MAXT) {
+    fail("harness:too-many-connections", "more than %d TCP connections in one case", MAXT);
+    return -1;
+  }
+  int k = ntcp, slot = NPEER + k;
+  ns_addr(&peer[slot], T_HOST, 7000 + k);
+  peer_ep[slot] = 2;
+  memset(&M[slot], 0, sizeof M[slot]);
+  M[slot].tcp = 1;
+  M[slot].alive = 1;
+  M[slot].last = ns_now();
+  exp_new[slot] = 1;
+  ntcp++;
+  tcur = slot;
+  tst[k] = ns_stream_raw_connect(&peer[slot], &srv[2]);
+  if (!tst[k]) {
+    fail("harness:stream-connect", "TCP connect failed");
+    return -1;
+  }
+  static const uint8_t csm[2] = {0x00, 0xE1};
+  ns_stream_raw_write(tst[k], 0, csm, 2);
+  ns_stream_release_all(tst[k], 1);
+  vxp_count(5, 1);
+  return slot;
+}
+static void
+t_req(const char *path, int observe, uint8_t tok) {
+  int slot = t_ensure();
+  if (slot < 0)
+    return;
+  struct w_buf w;
+  uint8_t f[64];
+  build_req(&w, path, observe, tok, NULL);
+  /* RFC 8323 framing of the same message: Len|TKL, code, token, options (Len = bytes after the token, < 13 here) */
+  size_t rest = w.n - 5;
+  f[0] = (uint8_t)(rest << 4 | 1);
+  f[1] = w.b[1];
+  f[2] = tok;
+  memcpy(f + 3, w.b + 5, rest);
+  M[slot].last = ns_now();
+  ns_stream_raw_write(tst[slot - NPEER], 0, f, 3 + rest);
+  ns_stream_release_all(tst[slot - NPEER], 1);
+}
+/* model: a disconnect ends every observation of the session; what else hangs off it stays */
+static void
+model_disconnect(int p) {
+  M[p].obs = 0;
+  M[p].was_disc = 1;
 }
 
 static void
 check_step(const char *opname) {
-  for (int p = 0; p < NPEER; p++) {
+  for (int p = 0; p < nslots(); p++) {
     if (exp_new[p]) {
-      fail("event:missing-NEW", "after %s: SERVER_SESSION_NEW for p%d predicted but not raised", opname, p);
+      fail("event:missing-NEW", "after %s: SERVER_SESSION_NEW for %s predicted but not raised", opname, pname(p));
       exp_new[p] = 0;
     }
     if (exp_del[p]) {
       char sig[100];
-      snprintf(sig, sizeof sig, "event:missing-DEL:%s", !strncmp(opname, "jump", 4) ? "idle-timeout" : "eviction");
-      fail(sig, "after %s: SERVER_SESSION_DEL for p%d predicted (idle, unreferenced) but not raised", opname, p);
+      snprintf(sig, sizeof sig, "event:missing-DEL:%s%s", exp_del_why[p], M[p].was_disc ? ":after-disconnect" : "");
+      fail(sig, "after %s: SERVER_SESSION_DEL for %s predicted (idle, unreferenced) but not raised", opname, pname(p));
       exp_del[p] = 0;
       M[p].alive = 1; /* resynchronise with the implementation */
     }
   }
+  if (failed)
+    return;
+  /* quiescent point: libcoap reclaims a server session iff session->ref == 0 (and never frees one with ref > 0), so
+   * "somebody holds it" in the model and in libcoap must agree -- a stuck reference means the session is never
+   * reclaimed, a missing one that it can be freed under its holder */
+  for (int p = 0; p < nslots(); p++) {
+    struct msess *m = &M[p];
+    if (!m->alive || !m->ptr)
+      continue;
+    unsigned ref = m->ptr->ref;
+    if (!held(m) && ref != 0) {
+      char sig[100];
+      snprintf(sig, sizeof sig, "refcount:stuck-reference-on-unheld-session:%s", m->was_disc ? "after-disconnect" : "no-disconnect");
+      fail(sig, "after %s: session of %s has ref=%u although no application reference, observation or async entry refers to it: it can never be reclaimed", opname, pname(p), ref);
+      return;
+    }
+    if (held(m) && ref == 0) {
+      char sig[120];
+      snprintf(sig, sizeof sig, "refcount:no-reference-for-holder:%s", holders(m));
+      fail(sig, "after %s: session of %s has ref=0 although it is held by %s: it can be reclaimed under its holder", opname, pname(p), holders(m));
+      return;
+    }
+  }
+  /* the server must not have closed a connection whose session the model still has connected */
+  if (t_open() && tst[tcur - NPEER]->side[0].peer_closed)
+    fail("tcp:server-closed-live-connection", "after %s: the server closed the connection of %s (holders: %s, idle %llu ms)", opname, pname(tcur), holders(&M[tcur]),
+         (unsigned long long)(ns_now() - M[tcur].last));
 }
 
 static void
@@ -324,14 +501,36 @@ do_op(int op) {
     break;
   case OP_OBS0:
     model_arrival(0);
-    M[0].observer = 1;
+    M[0].obs |= OB_O;
     send_req(0, "o", 0, 0x30);
     pump();
     break;
   case OP_CANCEL0:
     model_arrival(0);
-    M[0].observer = 0;
+    M[0].obs &= ~OB_O;
     send_req(0, "o", 1, 0x30);
+    pump();
+    break;
+  case OP_OBS0B: /* a second resource */
+    model_arrival(0);
+    M[0].obs |= OB_O2;
+    send_req(0, "o2", 0, 0x31);
+    pump();
+    break;
+  case OP_OBS0Q: /* the first resource again: other token, other query -> a second observation of its own */
+    model_arrival(0);
+    M[0].obs |= OB_OQ;
+    send_req_q(0, "o", 0, 0x32, "v=1");
+    pump();
+    break;
+  case OP_DISC0:
+    /* the application declares p0's session failed (it knows the session from SERVER_SESSION_NEW and has not seen its
+     * DEL).  A UDP server session stays in place for the peer's next datagram; its observations are gone. */
+    if (M[0].alive && M[0].ptr) {
+      coap_session_disconnected((coap_session_t *)(uintptr_t)M[0].ptr, COAP_NACK_NOT_DELIVERABLE);
+      model_disconnect(0);
+      vxp_count(6, 1);
+    }
     pump();
     break;
   case OP_ASYNC1:
@@ -352,6 +551,8 @@ do_op(int op) {
     break;
   case OP_CHG:
     coap_resource_notify_observers(r_obs, NULL);
+    if (r_obs2)
+      coap_resource_notify_observers(r_obs2, NULL);
     pump();
     break;
   case OP_JUMP_BEFORE:
@@ -362,14 +563,70 @@ do_op(int op) {
     pump();
     break;
   }
+  case OP_TREQ:
+    t_req("r", -1, 0x61);
+    pump();
+    break;
+  case OP_TREQREF: {
+    int slot = t_ensure();
+    take_ref_next_t = 1;
+    if (slot >= 0 && !held_ref_t)
+      M[slot].app_refs = 1;
+    t_req("r", -1, 0x62);
+    pump();
+    take_ref_next_t = 0;
+    break;
+  }
+  case OP_TREL:
+    if (held_ref_t) {
+      coap_session_release(held_ref_t);
+      held_ref_t = NULL;
+      M[held_t_slot].app_refs = 0;
+    }
+    model_reclaim();
+    pump();
+    break;
+  case OP_TOBS: {
+    int slot = t_ensure();
+    if (slot >= 0)
+      M[slot].obs |= OB_O;
+    t_req("o", 0, 0x63);
+    pump();
+    break;
+  }
+  case OP_TOBSB: {
+    int slot = t_ensure();
+    if (slot >= 0)
+      M[slot].obs |= OB_O2;
+    t_req("o2", 0, 0x64);
+    pump();
+    break;
+  }
+  case OP_TCLOSE:
+  case OP_TRELEASE:
+    if (t_open()) {
+      ns_stream_t *st = tst[tcur - NPEER];
+      if (op == OP_TRELEASE) { /* 7.04 Release, then the client closes its end as well */
+        static const uint8_t rel[2] = {0x00, 0xE4};
+        ns_stream_raw_write(st, 0, rel, 2);
+        ns_stream_release_all(st, 1);
+      }
+      M[tcur].gone = 1;
+      model_disconnect(tcur);
+      ns_stream_raw_close(st, 0);
+      vxp_count(7, 1);
+    }
+    pump();
+    break;
   }
   check_step(op_names[op]);
 }
 
 struct space {
-  char name[40];
+  char name[48];
   int depth;
   int max_idle;
+  int ext;
 };
 
 static void
@@ -379,21 +636,35 @@ one_case(uint64_t idx, void *arg) {
   uint64_t x = idx;
   opseq[0] = 0;
   size_t ol = 0;
+  int nalpha = sp->ext ? XOP_N : OP_N_OLD, any_new = 0;
   for (int i = 0; i < sp->depth; i++) {
-    ops[i] = (int)(x % OP_N);
-    x /= OP_N;
+    ops[i] = (int)(x % (uint64_t)nalpha);
+    if (sp->ext)
+      ops[i] = xops[ops[i]];
+    any_new |= ops[i] >= OP_N_OLD;
+    x /= (uint64_t)nalpha;
     ol += (size_t)snprintf(opseq + ol, sizeof opseq - ol, "%s%s", i ? " " : "", op_names[ops[i]]);
   }
+  if (sp->ext && !any_new) {
+    vxp_count(1, 1); /* a sequence of old operations only: run in the "ops" spaces */
+    return;
+  }
   max_idle = sp->max_idle;
+  ext = sp->ext;
   failed = 0;
   trace_len = 0;
   trace[0] = 0;
   memset(M, 0, sizeof M);
-  held_ref = NULL;
+  held_ref = held_ref_t = NULL;
+  held_t_slot = 0;
   pend_async = NULL;
-  take_ref_next = 0;
+  take_ref_next = take_ref_next_t = 0;
   next_mid = 0x100;
   live_blocks = 0;
+  ntcp = 0;
+  tcur = -1;
+  memset(tst, 0, sizeof tst);
+  r_obs2 = NULL;
   ns_init();
   ns_raw_rx = raw_rx;
   ctx = coap_new_context(NULL);
@@ -403,8 +674,11 @@ one_case(uint64_t idx, void *arg) {
   coap_register_event_handler(ctx, event_handler);
   ns_addr(&srv[0], 1, 5683);
   ns_addr(&srv[1], 1, 5684);
+  ns_addr(&srv[2], 1, 5685);
   coap_new_endpoint(ctx, &srv[0], COAP_PROTO_UDP);
   coap_new_endpoint(ctx, &srv[1], COAP_PROTO_UDP);
+  if (ext && !coap_new_endpoint(ctx, &srv[2], COAP_PROTO_TCP))
+    fail("harness:setup", "no TCP endpoint");
   ns_addr(&peer[0], 11, 6001);
   ns_addr(&peer[1], 12, 6001);
   ns_addr(&peer[2], 11, 6002);
@@ -416,6 +690,12 @@ one_case(uint64_t idx, void *arg) {
   coap_register_request_handler(r_obs, COAP_REQUEST_GET, hnd);
   coap_resource_set_get_observable(r_obs, 1);
   coap_add_resource(ctx, r_obs);
+  if (ext) {
+    r_obs2 = coap_resource_init(coap_make_str_const("o2"), 0);
+    coap_register_request_handler(r_obs2, COAP_REQUEST_GET, hnd);
+    coap_resource_set_get_observable(r_obs2, 1);
+    coap_add_resource(ctx, r_obs2);
+  }
   r_async = coap_resource_init(coap_make_str_const("a"), 0);
   coap_register_request_handler(r_async, COAP_REQUEST_GET, hnd);
   coap_add_resource(ctx, r_async);
@@ -429,18 +709,35 @@ one_case(uint64_t idx, void *arg) {
     held_ref = NULL;
     M[0].app_refs = 0;
   }
+  if (held_ref_t) {
+    coap_session_release(held_ref_t);
+    held_ref_t = NULL;
+    M[held_t_slot].app_refs = 0;
+  }
   tr(" | teardown:");
-  for (int p = 0; p < NPEER; p++)
-    if (M[p].alive)
+  int two_obs_disc = 0;
+  for (int p = 0; p < nslots(); p++) {
+    if (M[p].alive) {
       exp_del[p] = 1;
+      exp_del_why[p] = "teardown";
+    }
+    two_obs_disc |= M[p].was_disc;
+  }
   ns_unregister_ctx(ctx);
+  if (failed) {
+    /* the model and libcoap disagree already (reported above); coap_free_context() on a session with a stuck
+     * reference would only add libcoap's own assert(ref == 0) to the report */
+    ns_fini();
+    vxp_count(0, 1);
+    return;
+  }
   coap_free_context(ctx);
   if (!failed) {
-    for (int p = 0; p < NPEER; p++) {
+    for (int p = 0; p < nslots(); p++) {
       if (M[p].new_events != M[p].del_events) {
         char sig[80];
         snprintf(sig, sizeof sig, "event:NEW-DEL-imbalance:%s", M[p].new_events > M[p].del_events ? "missing-DEL-at-teardown" : "extra-DEL");
-        fail(sig, "p%d: %d SERVER_SESSION_NEW but %d SERVER_SESSION_DEL events after the context was freed", p, M[p].new_events, M[p].del_events);
+        fail(sig, "%s: %d SERVER_SESSION_NEW but %d SERVER_SESSION_DEL events after the context was freed", pname(p), M[p].new_events, M[p].del_events);
         break;
       }
     }
@@ -449,65 +746,13 @@ one_case(uint64_t idx, void *arg) {
   if (!failed && live_blocks != 0)
     fail(live_blocks > 0 ? "leak:funnel-balance" : "double-free:funnel-balance", "%ld blocks from coap_malloc_type live after coap_free_context()", live_blocks);
   vxp_count(0, 1);
+  if (two_obs_disc)
+    vxp_count(8, 1);
   int nontrivial = 0;
-  for (int p = 0; p < NPEER; p++)
+  for (int p = 0; p < nslots(); p++)
     nontrivial += M[p].del_events;
   if (nontrivial)
     vxp_distinct(vx_fnv(trace, trace_len, VX_FNV0));
   if (idx % 9973 == 17)
-    vxp_sample("max_idle=%d ops=[%s] events:%s", max_idle, opseq, trace);
-}
-
-int
-main(int argc, char **argv) {
-  vx_main_init(argc, argv, "C12");
-  int T = vx_is_thorough();
-  struct space sp[16];
-  int nsp = 0;
-  for (int d = 1; d <= (T ? 6 : 5); d++)
-    for (int mi = 0; mi < 3; mi++) {
-      if (d < (T ? 6 : 5) && d > 2)
-        continue; /* shorter sequences are prefixes followed by teardown: depth 1,2 and the maximum are run explicitly */
-      snprintf(sp[nsp].name, sizeof sp[nsp].name, "ops:depth=%d:max_idle=%d", d, mi);
-      sp[nsp].depth = d;
-      sp[nsp].max_idle = mi;
-      nsp++;
-    }
-  /* intermediate depths too (teardown after every prefix length) */
-  for (int d = 3; d < (T ? 6 : 5); d++)
-    for (int mi = 0; mi < 3; mi++) {
-      snprintf(sp[nsp].name, sizeof sp[nsp].name, "ops:depth=%d:max_idle=%d", d, mi);
-      sp[nsp].depth = d;
-      sp[nsp].max_idle = mi;
-      nsp++;
-    }
-  for (int i = 0; i < nsp; i++)
-    if (vxp_replay_if_match(sp[i].name, one_case, &sp[i]))
-      return 0;
-  if (vx_replay_path()) {
-    fprintf(stderr, "replay file does not match any space\n");
-    return 2;
-  }
-  uint64_t total = 0;
-  for (int i = 0; i < nsp; i++) {
-    uint64_t n = 1;
-    for (int k = 0; k < sp[i].depth; k++)
-      n *= OP_N;
-    struct vxp_config c = {.space = sp[i].name, .total = n};
-    struct vxp_stats st;
-    vxp_enumerate(&c, one_case, &sp[i], &st);
-    total += st.done;
-  }
-  vx_ev_add_states((long long)total, (long long)total * 4, (long long)total);
-  vx_ev_add_evals((long long)total, (long long)vxp_distinct_count());
-  vx_ev_int("unanswered_datagrams_delivered", (long long)vxp_counter(2));
-  vx_ev_rule("all operation sequences of depth 1..5 (thorough: ..6) over 15 operations {request from 4 peers (distinct address, same address other port, "
-             "same address+port on a second endpoint), request whose handler takes an application reference, release, observe register/cancel, "
-             "async register/trigger, resource change, time jump to timeout-1s / timeout+1s, a datagram from p0 / p2 that is heard but not answered "
-             "(NON with No-Response)} x max_idle_sessions {0,1,2}, session_timeout 5 s, each "
-             "followed by context teardown; a reference model predicts every SERVER_SESSION_NEW/DEL; non-trivial = at least one session was deleted; "
-             "distinct = distinct event traces");
-  vx_ev_assumption("no network faults in this check (C06-C11 cover schedules); peers acknowledge Confirmable notifications");
-  vx_ev_assumption("the application releases its own session references before coap_free_context()");
-  return vx_finish();
+    vxp_sample("%smax_idle=%d ops=[%s] events:%s", sp->ext ? "x " : "", max_idle, opseq, trace);
 }
